@@ -25,6 +25,10 @@ MX = ["<svg>", "<math>", "<mtext>", "<mi>", "<mglyph>", "<annotation-xml encodin
       "<![CDATA[", "]]>", "</style>", "</title>", "</svg>", "</math>", "x", "</textarea>", "<a href=javascript:x>", "</table>", "</select>",
       "&lt;img src=x onerror=1&gt;", "</noscript>", "</script>", "&lt;/textarea&gt;", "&lt;/title&gt;", "&lt;/style&gt;", "&lt;!--"]
 tw.THEMES.setdefault("MX", MX)
+# attribute values whose character references are themselves escaped in the source: what the sanitizer judged
+# (the decoded value) must be what the second parse decodes again, under every quoting decision of the serializer
+MXA = ["<a href=", '<a href="', "javascript", ":", "&amp;colon;", "&amp;#58;", "&amp;", "colon;", "x", '">', ">", " ", "'"]
+tw.THEMES.setdefault("MXA", MXA)
 
 IMPLIED = frozenset(["html", "head", "body", "tbody", "colgroup", "tr"])
 SER_OPTS = [{}, {"omit_optional_tags": False, "quote_attr_values": "always"}, {"escape_rcdata": True, "minimize_boolean_attributes": False}]
@@ -188,9 +192,13 @@ def run(run):
     depth = 3 if quick else 4
     classes = {}
     res = engine.product_bfs(step, len(MX), depth, ctx=("MX",))
-    for v in res.violations:
+    resa = engine.product_bfs(step, len(MXA), depth + 1, ctx=("MXA",))
+    for v in res.violations + resa.violations:
         if v.diff_class not in classes or len(v.case) < len(classes[v.diff_class].case):
             classes[v.diff_class] = v
+    res.states += resa.states
+    res.transitions += resa.transitions
+    res.obs |= resa.obs
     for v in classes.values():
         run.violation(v)
     run.set("states", res.states)
@@ -201,6 +209,7 @@ def run(run):
     run.set("reparses_per_input", 2 * 2 * len(SER_OPTS) * 4)
     run.set("depth_completed", res.depth_completed)
     run.set("alphabet", MX)
+    run.set("attribute_alphabet", MXA)
     run.set("exhaustive", True)
     run.sample({"text": "<svg><style><img src=x onerror=1>"})
     run.sample({"text": "<math><mtext><table><mglyph><style><!--</style><img src=x onerror=1>"})
